@@ -323,6 +323,9 @@ structure SharedAttr where
   ref : Option Rect
   deriving Repr, DecidableEq
 
+/-! NOTE: `worksheet_formula` reads no reader option: in particular it does not depend on the header-row
+    option (`with_header_row`), which only concerns `worksheet_range`; the model therefore has no such input. -/
+
 /-- one `<c>` element as `next_formula` sees it: position, and the `<f>` child if any
     (text, shared attributes when `t="shared"`) -/
 structure CellIn where
